@@ -1931,6 +1931,16 @@ func (x *c03ctx) runK7() {
 		c.Unresolved("K7", "template expansion function", "no load-set function re-enters a named declaration recursively (validateTemplate expected)")
 	}
 	c.Floor("K7", 1, "validateTemplate -> validateDecl recursion")
+	c03StackThreaded(c)
+	// K8 bounded Reads: every error a hierarchical reader's Read can return is terminal (NIL, io.EOF or the reader's own
+	// fatal type) — a continuable error returned WITHOUT consuming the offending unit would make every later Read fail
+	// the same way (unbounded per-record failures on a finite input). Shares the error-class analysis with C05 R05c.
+	if er := ecResolve(c, "K8"); er.ok {
+		x := &c05ctx{c: c, r: er, e: ecNewEngine(er)}
+		x.resolveHierarchical()
+		x.ruleClassesAs("K8")
+	}
+	c.Floor("K8", 3, "csv2, fixedlength2, edi")
 }
 
 func c03min(a, b int) int {
